@@ -40,6 +40,7 @@
 #include <algorithm>
 #include <cmath>
 #include <memory>
+#include <set>
 
 using namespace FEAT;
 
@@ -342,10 +343,12 @@ namespace
 
       // the serial step sequence of Control::Asm::asm_transfer_scalar (weights, scale_rows, shrink, transpose)
       MatrixType prol_s = prol.clone(LAFEM::CloneMode::Layout);
+      std::vector<double> wmat((size_t(nf)), 0.0); // weight vector of the matrix route
       {
         VectorType w = prol_s.create_vector_l();
         prol_s.format(); w.format();
         Assembly::GridTransfer::assemble_prolongation(prol_s, w, space_f, space_c, Cubature::DynamicFactory(cub_a));
+        for(Index i = 0; i < nf; ++i) wmat[size_t(i)] = w(i);
         w.component_invert(w);
         prol_s.scale_rows(prol_s, w);
         prol_s.shrink(1E-3 * prol_s.max_abs_element());
@@ -528,8 +531,81 @@ namespace
         vf.format();
         Assembly::GridTransfer::prolongate_vector_direct(vf, vc, space_f, space_c, cub_a);
         double w = 0.0; Index wi = 0;
-        for(Index i = 0; i < nf; ++i) { const double e = std::fabs(vf(i) - y[size_t(i)]) / std::max(1.0, ya[size_t(i)]); if(e > w) { w = e; wi = i; } }
-        c.check(w <= 1e-12, "matrix-free prolongate_vector differs from the assembled matrix; " + key, [&]{ char b[160]; snprintf(b, sizeof b, "max relative difference %.3e at fine dof %u", w, unsigned(wi)); return std::string(b); });
+        for(Index i = 0; i < nf; ++i) { const double e = std::fabs(vf(i) - y[size_t(i)]) / std::max(1.0, ya[size_t(i)]); if(!(e <= w)) { w = e; wi = i; } }
+        c.check(w <= 1e-12, "matrix-free prolongate_vector differs from the assembled matrix; " + key, [&]{ char b[160]; snprintf(b, sizeof b, "dense vector: max relative difference %.3e at fine dof %u", w, unsigned(wi)); return std::string(b); });
+
+        // ---- (d2) matrix-free prolongation for sparse inputs: the zero vector, coarse unit vectors e_j (all of them if the
+        // pair is small enough, else an evenly spaced sub-family incl. first and last), vectors supported on the dofs of one
+        // coarse cell; both entry points (with weight vector / direct). The result must be P*v, the weight vector must be the
+        // one of the matrix route (bitwise: both count cells per fine dof), the input must stay untouched.
+        {
+          struct TV { std::string name; std::vector<std::pair<Index, double>> nz; };
+          std::vector<TV> tvs;
+          { TV z; z.name = "zero vector"; tvs.push_back(z); }
+          const uint64_t budget = c.thorough ? 65536u : 4096u; // fine-cell visits spent on unit vectors per case
+          const Index nunit = Index(std::min<uint64_t>(uint64_t(nc), std::max<uint64_t>(6u, budget / std::max<uint64_t>(1u, uint64_t(ncell_f)))));
+          {
+            Index lastj = ~Index(0);
+            for(Index q = 0; q < nunit; ++q)
+            {
+              const Index j = (nunit <= 1) ? Index(0) : Index((uint64_t(q) * uint64_t(nc - 1)) / uint64_t(nunit - 1));
+              if(j == lastj) continue;
+              lastj = j;
+              TV t; t.name = "unit vector e_" + std::to_string(j); t.nz.push_back(std::make_pair(j, 1.0)); tvs.push_back(t);
+            }
+            if(nunit < nc) c.count("unit_vector_subfamilies"); else c.count("all_unit_vectors_cases");
+          }
+          {
+            // coarse-cell supported vectors: first, middle and last coarse cell (all cells in the thorough tier if few)
+            DofMapping dmc(space_c);
+            std::vector<Index> cells;
+            if(c.thorough && ncell_c <= 16) for(Index cc = 0; cc < ncell_c; ++cc) cells.push_back(cc);
+            else { cells.push_back(0); if(ncell_c > 2) cells.push_back(ncell_c / 2); if(ncell_c > 1) cells.push_back(ncell_c - 1); }
+            for(Index cc : cells)
+            {
+              dmc.prepare(cc);
+              TV t; t.name = "vector supported on coarse cell " + std::to_string(cc);
+              std::set<Index> seen;
+              for(int k = 0; k < dmc.get_num_local_dofs(); ++k) { const Index g = dmc.get_index(k); if(seen.insert(g).second) t.nz.push_back(std::make_pair(g, double(1 + (k % 3)) / 2.0 * ((k % 2) ? -1.0 : 1.0))); }
+              dmc.finish();
+              tvs.push_back(t);
+            }
+          }
+          VectorType tc(nc), tf(nf), tw(nf), tfd(nf);
+          std::vector<double> ex((size_t(nf)), 0.0), exa((size_t(nf)), 0.0);
+          size_t nfail = 0;
+          for(const TV& t : tvs)
+          {
+            tc.format();
+            for(auto& e : t.nz) tc(e.first, e.second);
+            // expected P*v from the columns of P (= rows of R, which was compared bitwise with P^T above)
+            std::fill(ex.begin(), ex.end(), 0.0); std::fill(exa.begin(), exa.end(), 0.0);
+            for(auto& e : t.nz) for(Index k = R.rp[e.first]; k < R.rp[e.first + 1]; ++k) { ex[size_t(R.ci[k])] += R.va[k] * e.second; exa[size_t(R.ci[k])] += std::fabs(R.va[k] * e.second); }
+            tf.format(); tw.format(); tfd.format(777.0);
+            Assembly::GridTransfer::prolongate_vector(tf, tw, tc, space_f, space_c, cub_a);
+            tfd.format();
+            Assembly::GridTransfer::prolongate_vector_direct(tfd, tc, space_f, space_c, cub_a);
+            bool w_ok = true, v_ok = true, d_ok = true, in_ok = true; Index bi = 0;
+            for(Index i = 0; i < nf; ++i)
+            {
+              if(!(tw(i) == wmat[size_t(i)])) { if(w_ok) bi = i; w_ok = false; }
+              const double scaled = tf(i) / wmat[size_t(i)];
+              const double tolv = 1e-12 * std::max(1.0, exa[size_t(i)]);
+              if(!(std::fabs(scaled - ex[size_t(i)]) <= tolv)) { if(v_ok && w_ok) bi = i; v_ok = false; }
+              if(!(std::fabs(tfd(i) - ex[size_t(i)]) <= tolv)) { if(d_ok && v_ok && w_ok) bi = i; d_ok = false; }
+            }
+            for(Index j = 0; j < nc; ++j) { double want = 0.0; for(auto& e : t.nz) if(e.first == j) want = e.second; if(!(tc(j) == want)) in_ok = false; }
+            if(nfail < 3)
+            {
+              c.check(w_ok, "matrix-free prolongate_vector: weight vector differs from the matrix route; " + key, [&]{ char b[200]; snprintf(b, sizeof b, "%s: weight[%u] = %g, assemble_prolongation gives %g", t.name.c_str(), unsigned(bi), tw(bi), wmat[size_t(bi)]); return std::string(b); });
+              c.check(v_ok, "matrix-free prolongate_vector (weighted) differs from P*v for a sparse vector; " + key, [&]{ char b[200]; snprintf(b, sizeof b, "%s: fine dof %u: %g/%g vs %g", t.name.c_str(), unsigned(bi), tf(bi), wmat[size_t(bi)], ex[size_t(bi)]); return std::string(b); });
+              c.check(d_ok, "matrix-free prolongate_vector_direct differs from P*v for a sparse vector; " + key, [&]{ char b[200]; snprintf(b, sizeof b, "%s: fine dof %u: %g vs %g", t.name.c_str(), unsigned(bi), tfd(bi), ex[size_t(bi)]); return std::string(b); });
+              c.check(in_ok, "matrix-free prolongate_vector modified its input; " + key, [&]{ return t.name; });
+            }
+            if(!(w_ok && v_ok && d_ok && in_ok)) ++nfail;
+            c.count("matrix_free_sparse_vectors");
+          }
+        }
 
         LAFEM::Transfer<MatrixType> tr(prol.clone(), rest.clone(), trunc.clone());
         c.check(!tr.is_ghost(), "LAFEM::Transfer::is_ghost; " + key, "local transfer claims to be a ghost operator");
@@ -642,7 +718,7 @@ int main(int argc, char** argv)
   spec.assumptions = {
     "FEAT space evaluators and dof mappings are used to evaluate basis functions (checked by C15); the trafo is inverted by an own Newton iteration",
     "meshes are permuted after refinement (the convention GridTransfer's 2-level lookup is written for)",
-    "tolerances: exactness 2e-11 absolute on O(1) basis values (local mass matrix inversion), T*P=I 2e-10, matrix-free vs matrix 1e-12 relative, Transfer vs dense product 64 eps relative; transpose is compared bitwise",
+    "matrix-free prolongation is called for all coarse unit vectors where #coarse dofs * #fine cells <= 4096 (quick) / 65536 (thorough), else for an evenly spaced sub-family (>= 6, incl. first and last), plus zero, dense and coarse-cell supported vectors", "tolerances: exactness 2e-11 absolute on O(1) basis values (local mass matrix inversion), T*P=I 2e-10, matrix-free vs matrix 1e-12 relative, Transfer vs dense product 64 eps relative; transpose is compared bitwise",
     "Global::Transfer / Muxer (MPI) is outside this harness (C13)",
     "non-nested spaces (Crouzeix-Raviart, Rannacher-Turek, P2-bubble, parametric discontinuous P1 on non-parallelograms) are excluded"};
 
